@@ -397,6 +397,8 @@ class Program:
 # ------------------------------------------------------------------------------------------------
 
 class Interp:
+    _atoms = {}
+
     def __init__(self, prog, mode="sym", smt=None, max_unroll=64, stubs=None, max_paths=20000, check_timeout_ms=4000):
         self.prog = prog
         self.mode = mode
@@ -441,8 +443,10 @@ class Interp:
                     v = v.items[p[1]]
                 elif isinstance(v, Closure):
                     v = v.caps[p[1]]
-                elif isinstance(v, RefCellV) and p[1] == 0:
-                    v = v
+                elif isinstance(v, (RefCellV, Ref)):
+                    v = v      # wrapper chains (Box -> Unique -> NonNull, RefCell.value) are transparent
+                elif v is None:
+                    raise Unsupported("read of uninitialised field")
                 else:
                     raise Unsupported("field %d of %r" % (p[1], v))
             elif k == "v":
@@ -1143,6 +1147,8 @@ class Interp:
                 return r if op == "Eq" else z3.Not(r)
             if not is_scalar(a) or not is_scalar(b):
                 raise Unsupported("comparison of non-scalars %r %r" % (a, b))
+            if is_sym(a) or is_sym(b):
+                a, b = self.coerce(a, b)
             return {"Eq": lambda: a == b, "Ne": lambda: a != b, "Lt": lambda: a < b, "Le": lambda: a <= b,
                     "Gt": lambda: a > b, "Ge": lambda: a >= b}[op]()
         if op in ("AddWithOverflow", "SubWithOverflow", "MulWithOverflow"):
@@ -1158,6 +1164,8 @@ class Interp:
         if op in ("Add", "Sub", "Mul", "AddUnchecked", "SubUnchecked", "MulUnchecked"):
             if isinstance(a, bool) or isinstance(b, bool):
                 raise Unsupported("arith on bool")
+            if is_sym(a) or is_sym(b):
+                a, b = self.coerce(a, b)
             r = {"A": lambda: a + b, "S": lambda: a - b, "M": lambda: a * b}[op[0]]()
             if self.mode == "sym" and self.is_float_ty(ty) and isinstance(r, int) and not isinstance(r, bool):
                 r = Fraction(r)
@@ -1192,6 +1200,14 @@ class Interp:
             if isinstance(a, int) and isinstance(b, int):
                 return {"BitAnd": a & b, "BitOr": a | b, "BitXor": a ^ b}[op]
         raise Unsupported("binop %s on %r, %r" % (op, a, b))
+
+    def coerce(self, a, b):
+        a, b = to_z3(a), to_z3(b)
+        if z3.is_int(a) and z3.is_real(b):
+            a = z3.ToReal(a)
+        elif z3.is_real(a) and z3.is_int(b):
+            b = z3.ToReal(b)
+        return a, b
 
     def fdiv(self, st, a, b):
         if not is_sym(a) and not is_sym(b):
@@ -1233,20 +1249,35 @@ class Interp:
         t = z3.If(q >= 0, z3.ToInt(q), -z3.ToInt(-q))
         return az - z3.ToReal(t) * to_z3(Fraction(b))
 
-    def ffloor(self, x):
+    def ffloor(self, x, st=None):
         if not is_sym(x):
             if self.mode == "float":
                 return float(math.floor(x)) if math.isfinite(x) else x
             return Fraction(math.floor(x))
         if z3.is_int(x):
             return x
-        # floor(to_real(a)/c) with positive integer constant c -> a div c
-        if x.decl().kind() == z3.Z3_OP_DIV:
-            n, d = x.arg(0), x.arg(1)
-            if n.decl().kind() == z3.Z3_OP_TO_REAL and z3.is_rational_value(d):
-                dv = d.as_fraction()
-                if dv.denominator == 1 and dv.numerator > 0:
-                    return n.arg(0) / z3.IntVal(dv.numerator)
+        lf = linform(x)
+        if lf is not None:
+            # x = (sum c_i * a_i + c0) with integer-sorted atoms a_i and rational c: floor(x) = (sum (c_i q) a_i + c0 q) div q
+            atoms, c0 = lf
+            q = 1
+            for c in list(atoms.values()) + [c0]:
+                q = q * c.denominator // math.gcd(q, c.denominator)
+            num = z3.IntVal(int(c0 * q))
+            for k, c in atoms.items():
+                num = num + z3.IntVal(int(c * q)) * self._atoms[k]
+            num = z3.simplify(num)
+            if st is not None and q > 1 and any(c.denominator & (c.denominator - 1) for c in atoms.values()):
+                pass
+            if st is not None and q > 1:
+                # robustness of floor under f64 rounding: the exact value is an integer or >= 2^-20 away from one
+                r = num % q
+                eps = max(1, q >> 20)
+                st.obls.append(("floor-robust: argument of floor() is an exact integer or at distance >= 2^-20 from an integer",
+                                z3.Or(r == 0, z3.And(r >= eps, r <= q - eps)), len(st.pc)))
+            return num / z3.IntVal(q) if q != 1 else num
+        if st is not None:
+            st.obls.append(("floor-real: floor() of a non-linear real term is taken in exact real arithmetic", True, len(st.pc)))
         return z3.ToInt(x)
 
     def abbrev(self, st, term, prefix="t"):
@@ -1317,6 +1348,72 @@ class Interp:
         if kind.startswith("PointerCoercion") or kind in ("Transmute", "PtrToPtr"):
             return a
         raise Unsupported("cast kind %s" % kind)
+
+
+_ATOMS = {}
+
+
+def linform(x):
+    """x as (dict atom-key -> Fraction coeff, Fraction const) over Int-sorted atoms, or None."""
+    n = None
+    if z3.is_int_value(x):
+        return ({}, Fraction(x.as_long()))
+    if z3.is_rational_value(x):
+        return ({}, x.as_fraction())
+    k = x.decl().kind()
+    if k == z3.Z3_OP_TO_REAL or (z3.is_int(x) and k not in (z3.Z3_OP_ADD, z3.Z3_OP_SUB, z3.Z3_OP_MUL, z3.Z3_OP_UMINUS)):
+        a = x.arg(0) if k == z3.Z3_OP_TO_REAL else x
+        if not z3.is_int(a):
+            return None
+        inner = linform(a) if a.decl().kind() in (z3.Z3_OP_ADD, z3.Z3_OP_SUB, z3.Z3_OP_MUL, z3.Z3_OP_UMINUS) else None
+        if inner is not None:
+            return inner
+        key = a.get_id()
+        Interp._atoms[key] = a
+        return ({key: Fraction(1)}, Fraction(0))
+    if k == z3.Z3_OP_ADD or k == z3.Z3_OP_SUB:
+        acc, c0 = {}, Fraction(0)
+        for i, ch in enumerate(x.children()):
+            lf = linform(ch)
+            if lf is None:
+                return None
+            sgn = -1 if (k == z3.Z3_OP_SUB and i > 0) else 1
+            for kk, c in lf[0].items():
+                acc[kk] = acc.get(kk, Fraction(0)) + sgn * c
+            c0 += sgn * lf[1]
+        return (acc, c0)
+    if k == z3.Z3_OP_UMINUS:
+        lf = linform(x.arg(0))
+        if lf is None:
+            return None
+        return ({kk: -c for kk, c in lf[0].items()}, -lf[1])
+    if k == z3.Z3_OP_MUL:
+        const, rest = Fraction(1), []
+        for ch in x.children():
+            if z3.is_int_value(ch):
+                const *= ch.as_long()
+            elif z3.is_rational_value(ch):
+                const *= ch.as_fraction()
+            else:
+                rest.append(ch)
+        if len(rest) == 0:
+            return ({}, const)
+        if len(rest) == 1:
+            lf = linform(rest[0])
+            if lf is None:
+                return None
+            return ({kk: c * const for kk, c in lf[0].items()}, lf[1] * const)
+        return None
+    if k == z3.Z3_OP_DIV:
+        d = x.arg(1)
+        dv = Fraction(d.as_long()) if z3.is_int_value(d) else d.as_fraction() if z3.is_rational_value(d) else None
+        if dv is None or dv == 0:
+            return None
+        lf = linform(x.arg(0))
+        if lf is None:
+            return None
+        return ({kk: c / dv for kk, c in lf[0].items()}, lf[1] / dv)
+    return None
 
 
 class PanicMarker:
